@@ -55,7 +55,7 @@ func (c *HTTPResponder) Write(status int, body io.Reader) (written int64, err er
 		// net/http panics on a status code it cannot put on the wire (an origin may well send
 		// "HTTP/1.1 042"): answer with an error of our own instead of dropping the connection.
 		http.Error(c.writer, fmt.Sprintf("Bad Gateway: upstream answered with the invalid status code %d", status), http.StatusBadGateway)
-		return 0, fmt.Errorf("invalid status code %d from upstream", status)
+		return 0, nil // The 502 is a complete response of its own
 	}
 	c.writeStatusHeader(status)
 	return io.Copy(c.writer, body)
